@@ -271,7 +271,36 @@ class Project(object):
         m = self.modules.get(mod)
         if m is None:
             return None
-        return m.functions.get(q)
+        f = m.functions.get(q)
+        if f is not None:
+            return f
+        # a method that was pulled up into a (private) base class of the same module: found through the bases
+        if '.' in q:
+            cname, _, meth = q.partition('.')
+            seen = set()
+            todo = [cname]
+            while todo:
+                c = todo.pop(0)
+                if c in seen or c not in m.classes:
+                    continue
+                seen.add(c)
+                g = m.functions.get('%s.%s' % (c, meth))
+                if g is not None:
+                    return g
+                for b in m.classes[c].node.bases:
+                    if isinstance(b, ast.Name):
+                        todo.append(b.id)
+            return None
+        # an iterator function that was inlined into the __iter__ of its view (iterskip -> SkipView.__iter__)
+        if q.startswith('iter'):
+            want = q[4:].lower() + 'view'
+            for cn in m.classes:
+                if cn.lower() == want:
+                    g = m.functions.get('%s.__iter__' % cn)
+                    if g is not None:
+                        return g
+        away = getattr(m, 'inlined_away', {})
+        return away.get(q)
 
     def need_fn(self, fq):
         f = self.fn(fq)
